@@ -463,9 +463,31 @@ def search(ctx):
                 for f in attribute(cfg, f'results differ in a fresh interpreter (PYTHONHASHSEED={hs}, global draws before the sim): {bad[:4]}', channel='fresh-interpreter/hash-seed'):
                     ctx.fail(f['signature'], f['what'], dict(kind='subprocess', cfg=cfg))
                 break
-    # per-network betas given as a dict: the order in which the networks transmit must not depend on the hash seed
-    for k in range(ctx.budget(1, 4)):
+    # table-driven modules: another simulation with ANOTHER table (same years, sexes, ages) run before / in between
+    for kind in ('other-sim-before', 'other-sim-between'):
+        cfg = impl.gen_sim_config(ctx.rng, small=True, diseases=['sis'], networks=['random'], demographics=[], allow_global_readers=False)
+        cfg['demographics'] = [dict(type='deaths', death_table=dict(scale=60.0))]
+        other = dict(cfg, rand_seed=cfg['rand_seed'] + 5, demographics=[dict(type='deaths', death_table=dict(scale=200.0))])
+        hist = dict(kind=kind, n=2, k=5, other=other)
+        try:
+            msg = oracle_diff(cfg, hist)
+        except Exception as e:
+            ctx.count('oracle_exceptions'); ctx.notes['last_oracle_exception'] = f'{type(e).__name__}: {e}'; continue
+        ctx.count('differential_runs'); ctx.count('history:' + kind + '/tables')
+        if msg:
+            for f in attribute(cfg, msg, channel=kind, hist=hist):
+                ctx.fail(f['signature'], f['what'], dict(kind='diff', cfg=cfg, hist=hist))
+    # per-network betas given as a dict / a mixing pool serving two named diseases: the order in which networks and
+    # diseases are processed must not depend on the hash seed
+    for k in range(ctx.budget(3, 6)):
         cfg = dictbeta_cfg(ctx.rng)
+        if k == 2:
+            # a table-driven module after simulations with other tables ran in THIS process, against a fresh interpreter
+            cfg = impl.gen_sim_config(ctx.rng, small=True, diseases=['sis'], networks=['random'], demographics=[], allow_global_readers=False)
+            cfg['demographics'] = [dict(type='deaths', death_table=dict(scale=200.0))]
+        if k == 1:
+            from harness import zoo
+            cfg = zoo.configs(names=['pool-two-diseases'])[0][1]; cfg['rand_seed'] = ctx.rng.randint(0, 1000)
         try:
             a = digest(run_ref(cfg))
         except Exception as e:
@@ -475,7 +497,7 @@ def search(ctx):
             if b is None: ctx.count('subprocess_failed'); continue
             bad = sorted(k2 for k2 in set(a) | set(b) if a.get(k2) != b.get(k2))
             if bad:
-                for f in attribute(cfg, f'dict beta over three networks: results differ in a fresh interpreter (PYTHONHASHSEED={hs}): {bad[:4]}', channel='fresh-interpreter/hash-seed'):
+                for f in attribute(cfg, f'dict beta over three networks / pool over two diseases: results differ in a fresh interpreter (PYTHONHASHSEED={hs}): {bad[:4]}', channel='fresh-interpreter/hash-seed'):
                     ctx.fail(f['signature'], f['what'], dict(kind='subprocess', cfg=cfg, hashseeds=[1, 2, 3, 4]))
                 break
     # distribution objects the user created before the simulation (strict=False), SciPy- and NumPy-sampled families
